@@ -9,6 +9,7 @@ pub mod oracle;
 pub mod prog;
 pub mod props;
 pub mod strs;
+pub mod prerace;
 pub mod teardown;
 pub mod world;
 pub mod fuzzdec;
